@@ -1,5 +1,6 @@
 """C13 Loading arbitrary definition text is safe and reports its problems.  DESIGN.md section 4, C13."""
 import k1
+from facts import AnchorLost
 import loader_rules as L
 import shared_rules
 
@@ -20,7 +21,27 @@ def run(chk, F):
     if res:
         chk.guard("loop-leaves-on-eof", "parsers", lambda: k1.eof_exits(chk, F, res[1]))
         chk.guard("loop-progress", "parsers", lambda: k1.loop_progress(chk, F, res[1]))
+        chk.guard("lexer-not-recursive", "gnu_units lexer", lambda: lexer_not_recursive(chk, F))
     chk.guard("cycle-guard", "Resolver::visit", lambda: L.visit_structure(chk, F))
     chk.guard("errors-reported", "load_defs", lambda: L.errors_reported(chk, F))
     chk.guard("temporaries-cleared", "load_defs", lambda: shared_rules.temporaries_cleared(chk, F))
     chk.guard("definitions-only-for-loaded-units", "load_defs", lambda: L.definitions_only_for_loaded(chk, F))
+
+
+def lexer_not_recursive(chk, F):
+    """The definitions lexer must not call itself: a self-call per skipped character (blank, line continuation) makes the
+    stack depth a function of the longest run of such characters in the file.  (The query lexer does recurse per blank; its
+    inputs are single lines of chat length, so that depth is bounded by the line length - see C04.)"""
+    import cg
+    G = cg.get(F)
+    lx = [f for f in F.by_crate["rink_core"] if f.path == "<loader::gnu_units::TokenIterator<'a> as core::iter::traits::iterator::Iterator>::next"]
+    if len(lx) != 1:
+        raise AnchorLost("definitions lexer not found")
+    fn = lx[0]
+    reach = G.reachable([F.fns[b] for b in G.edges.get(fn.id, ()) if b in F.fns])
+    rec = fn.id in reach
+    sites = [fn.where(bb) for bb, t in fn.calls() if t.get("callee", {}).get("id") == fn.id]
+    chk.decide(not rec, "lexer-not-recursive", "rink_core::loader::gnu_units::TokenIterator::next", "no-self-call", sites[0] if sites else fn.where(),
+               "the definitions lexer skips blanks and continuations iteratively",
+               "the definitions lexer calls itself (%s): one stack frame per skipped character - a long run of blanks or line continuations in a "
+               "definitions file overflows the stack" % (", ".join(sites) or "through other functions"))
